@@ -106,7 +106,8 @@ func vfMsgAlphabet(thorough bool) []vfMsgOp {
 	}
 	ops = append(ops, notes...)
 	ops = append(ops,
-		vfMsgOp{Kind: "setwant", Actor: 1, Mode: "JWPS"}, vfMsgOp{Kind: "setwant", Actor: 1, Mode: "JRWPS"},
+		vfMsgOp{Kind: "setwant", Actor: 1, Mode: "JWPS"}, vfMsgOp{Kind: "setwant", Actor: 1, Mode: "JRWPS"}, vfMsgOp{Kind: "setwant", Actor: 1, Mode: "JRPS"},
+		vfMsgOp{Kind: "setwant", Actor: 0, Mode: "JRWPASO"},
 		vfMsgOp{Kind: "setgiven", Actor: 0, Target: 1, Mode: "JRPS"}, vfMsgOp{Kind: "setgiven", Actor: 0, Target: 1, Mode: "JRWPS"},
 		vfMsgOp{Kind: "setgiven", Actor: 0, Target: 2, Mode: "JRW"},
 		vfMsgOp{Kind: "unsub", Actor: 1}, vfMsgOp{Kind: "sub", Actor: 1}, vfMsgOp{Kind: "leave", Actor: 2}, vfMsgOp{Kind: "sub", Actor: 2},
